@@ -78,6 +78,8 @@ def oracle_chsize(bs, splits, size, res):
     if 'bad' in res:
         return res['bad'], False
     if res['kind'] != 'ok':
+        if res['what'].startswith('abort') and size % bs == 0:
+            return 'os_abort() on a block-aligned request (size %d, block %d)' % (size, bs), False
         return None, False
     new = res['splits']
     if len(new) != len(splits):
@@ -432,8 +434,14 @@ def run_scenario(chk, tool, model, rng, root, idx, stats):
                 viol(tag, 'model predicts that the splits cannot hold %s bytes (%s) but sync succeeded' % (psize, [p.get('what') for p in pred]), {'model_lines': lines}, drift=True)
             return False
         if rcB != 0:
-            # the property oracle: limits allow the size?  caps = floor(limit/bs)*bs per split
-            viol(tag, 'sync of the split array failed rc=%d although the model predicts success: %s' % (rcB, outB[-300:]), {'model_lines': lines}, drift=True)
+            # independent judgement: from a fresh array under constant limits every split before the last used one is
+            # full, so the resize must succeed iff sum_s floor(limit_s/bs)*bs >= parity size; a crash is never acceptable
+            fits = all(sum(py_parity_limit(limit, s, l) // BS * BS for s in range(nsplit[l])) >= psize[l] for l in range(nlev))
+            if fits or rcB < 0:
+                viol(tag, 'sync of the split array %s (rc=%d) although the single-file twin succeeded and the splits can hold the parity (%s bytes, limit %d): %s' %
+                     ('crashed' if rcB < 0 else 'failed', rcB, psize, limit, outB[-300:]), {'model_lines': lines})
+            else:
+                viol(tag, 'sync of the split array failed rc=%d although the model predicts success: %s' % (rcB, outB[-300:]), {'model_lines': lines}, drift=True)
             return False
         after = B.file_sizes()
         rcC, outC, lgC = B.run(['check'])
